@@ -181,6 +181,17 @@ def grouped(step):
 def flat_vals(ty, v):
     return [v] if ty in ('INT', 'DOUBLE') else list(v)
 
+def same_point(xa, xb, j, sa, stats):
+    """positions are compared as points of the PERIODIC box (every generated box is periodic in all directions): a coordinate on the
+    upper face, kept by run A within the geometric tolerance of its cell, is the point on the lower face; since /repo's fix of the
+    reader (see known_findings.json, fixed: C18) such a particle comes back there"""
+    L = sa['box'][1][j] - sa['box'][0][j]
+    if xb != xa and abs(xb - xa) == L:
+        stats['periodic_images'] = stats.get('periodic_images', 0) + 1
+        return xa
+    return xb
+
+
 def check_value(xa, xb, P, where, viol, stats):
     q, exact = round_dec(xa, P)
     if exact:
@@ -207,7 +218,7 @@ def oracle(sa, sb, stats):
         for i, (pa, pb) in enumerate(zip(ga[k], gb[k])):
             w = '%s %s #%d' % (k[0], 'frozen' if k[1] else 'free', i)
             for j in range(3):
-                check_value(pa['r'][j], pb['r'][j], 8, w + ' r[%d]' % j, viol, stats)
+                check_value(pa['r'][j], same_point(round_dec(pa['r'][j], 8)[0], pb['r'][j], j, sa, stats) if round_dec(pa['r'][j], 8)[1] else pb['r'][j], 8, w + ' r[%d]' % j, viol, stats)
                 check_value(pa['v'][j], pb['v'][j], 8, w + ' v[%d]' % j, viol, stats)
             for name, (ty, pers, va) in pa['tag'].items():
                 if not pers or internal(name):
@@ -319,7 +330,7 @@ def compare_model_b(m, sa, sb, stats):
             for j in range(3):
                 for nm in ('r', 'v'):
                     stats['model_values'] += 1
-                    if F(float(pm[nm][j])) != pb[nm][j]:
+                    if F(float(pm[nm][j])) != (same_point(F(float(pm[nm][j])), pb[nm][j], j, sa, stats) if nm == 'r' else pb[nm][j]):
                         dis.append('%s %s[%d]: model %s B %r' % (w, nm, j, pm[nm][j], float(pb[nm][j])))
             for name, (ty, pers, _) in pa['tag'].items():
                 if not pers or internal(name):
